@@ -36,7 +36,10 @@ ASSUMPTIONS = [
     'feasibility is judged in the optimizer (scaled) space with tolerance 1e-6*(1+|bound_scaled|) while the '
     'optimizers are run with tolerances <= 1e-9 (>= 100x margin)',
     'trust-constr results are judged for feasibility/optimality only when scipy\'s own constr_violation / '
-    'optimality measures are below 1e-7, so that scipy\'s lax xtol-success is not blamed on OpenMDAO',
+    'optimality measures are below 1e-7, so that scipy\'s lax xtol-success is not blamed on OpenMDAO; the '
+    'optimum of a tr_interior_point result is judged only when its final barrier_parameter <= 1e-7 (scipy '
+    'stops on gtol while mu is still 1e-3..1e-4 on n=1 problems) unless a callback/argument monitor saw the '
+    'driver hand scipy a wrong value',
     'designs are compared with tolerance 1e-4*(1+|z*|)*sqrt(cond Q) (optimizers run with tol 1e-10; '
     'observed errors are <= 1e-6)',
     'negative scalers on design variables / constraints are exercised in a separate stratum (keys neg-scaler:*)',
@@ -372,18 +375,31 @@ def run_control(opt, mon, drv, absent=np.inf):
     """The same optimizer-space problem posed directly to scipy from the reference formulas, with the
     same options.  Returns x or None (control failed / raised).  `absent` is the number used for an
     absent bound of a new-style constraint (np.inf, or 1e30 to mimic a finite "infinity")."""
-    from scipy.optimize import minimize, Bounds, NonlinearConstraint
+    from scipy.optimize import minimize, NonlinearConstraint, LinearConstraint
     sr = mon.sr
     cap = mon.captured or {}
     x0 = np.array(cap.get('x0'), float)
     cons = []
     if opt in NEW_STYLE:
+        # same layout as the driver documents (one NonlinearConstraint per element; a LinearConstraint
+        # with keep_feasible for linear=True under trust-constr), so that scipy's own behaviour on the
+        # correctly posed problem (e.g. trust-constr stopping on its gtol test while the barrier
+        # parameter is still large) shows up in the control run as well and is not blamed on OpenMDAO
+        zero = np.zeros(sr.n)
         for c in sr.ref.cons:
             key = c['key']
-            lo = np.where(sr.lo[key] <= -af.INF_BOUND, -absent, sr.lo[key])
-            hi = np.where(sr.hi[key] >= af.INF_BOUND, absent, sr.hi[key])
-            cons.append(NonlinearConstraint(lambda x, key=key: sr.g(x, key), lo, hi,
-                                            jac=lambda x, key=key: sr.jac_g(x, key)))
+            lo_inf = sr.lo[key] <= -af.INF_BOUND
+            hi_inf = sr.hi[key] >= af.INF_BOUND
+            if c['d'].get('linear') and opt == 'trust-constr':
+                k0 = sr.g(zero, key)
+                cons.append(LinearConstraint(sr.jac_g(zero, key), np.where(lo_inf, -absent, sr.lo[key] - k0),
+                                             np.where(hi_inf, absent, sr.hi[key] - k0), keep_feasible=True))
+                continue
+            lo = np.where(lo_inf, -absent, sr.lo[key])
+            hi = np.where(hi_inf, absent, sr.hi[key])
+            for k in range(c['size']):
+                cons.append(NonlinearConstraint(lambda x, key=key, k=k: sr.g(x, key)[k], lo[k], hi[k],
+                                                jac=lambda x, key=key, k=k: sr.jac_g(x, key)[k]))
     else:
         for c in sr.ref.cons:
             key = c['key']
@@ -542,8 +558,8 @@ def judge(case, acc):
         acc.count('obs:model-state-compared')
         dx = np.max(np.abs(xs_model - xret) / (1.0 + np.abs(xret)))
         if dx > FEAS_TOL:
-            key = ('neg-scaler:%s:model-state-differs-from-returned-x' % variant) if neg else \
-                '%s:model-state-differs-from-returned-x' % opt
+            # (independent of the bounds: also keyed by optimizer in the negative-scaler stratum)
+            key = '%s:model-state-differs-from-returned-x' % opt
             bad.append((key, 'model is left at z=%s but the optimizer returned (unscaled) %s'
                         % (z_model.tolist(), z.tolist())))
         lab = mon.label('new-style' if opt in NEW_STYLE else 'old-style')
@@ -561,6 +577,17 @@ def judge(case, acc):
             if og > 1e-7 or cv > 1e-7:
                 judge_opt = False
                 acc.count('guard:trust-constr-own-optimality')
+            # scipy's interior point variant stops as soon as its optimality measure (Lagrangian gradient
+            # with least-squares multipliers; identically ~0 for n=1) passes gtol, even when the barrier
+            # parameter mu has not been driven to barrier_tol (= tol = 1e-10 here); the returned point is
+            # then a central-path point O(mu) away from the optimum.  Not blamed on OpenMDAO unless a
+            # monitor saw the driver hand scipy something wrong.
+            bp = getattr(res, 'barrier_parameter', None)
+            anomaly = bool(lab) or any(linrep.values()) or _finite_infinity_passed(mon)
+            if judge_opt and not anomaly and getattr(res, 'method', '') == 'tr_interior_point' \
+                    and bp is not None and float(bp) > 1e-7:
+                judge_opt = False
+                acc.count('guard:trust-constr-barrier-parameter-not-reduced')
         # ---- (ii) elementwise feasibility of the reported design (harness evaluation)
         g = ref.g(z)
         nel = 0
